@@ -111,61 +111,64 @@ def byteMaskToImm8 (v : Nat) : Nat :=
 
 def ctz32 (v : Nat) : Nat := ((List.range 32).find? (fun i => (v >>> i) % 2 == 1)).getD 32
 
-/-- `sh` = the optional second immediate (value, predicate).  NOTE: the source tests `o0.as<Imm>().value() != 0` (the
+/-- stage 1 of movi / mvni (64-bit elements): byte mask, or the value halves (`size_op.decrement_size()`); (imm64, imm8, size) -/
+def moviStage1 (size0 imm64 : Nat) : Option (Nat × Nat × Nat) :=
+  if size0 == 3 then
+    if isByteMask imm64 then some (imm64, byteMaskToImm8 imm64, 3)
+    else if imm64 >>> 32 == imm64 % 2 ^ 32 then some (imm64 % 2 ^ 32, 0, 2) else none
+  else some (imm64, 0, size0)
+
+/-- stage 2 (elements below 64 bits): halving to the smallest element and the shift; (imm8, size, shift, shiftOp) -/
+def moviStage2 (sh : Option (BitVec 64 × Nat)) (a : Nat × Nat × Nat) : Option (Nat × Nat × Nat × Nat) :=
+  let (imm64, imm8a, size1) := a
+  if size1 < 3 then
+    if imm64 > 0xFFFFFFFF then none else
+    let (i8, sz) := if size1 == 2 && imm64 >>> 16 == imm64 % 65536 then (imm64 >>> 16, 1) else (imm64, size1)
+    if sz == 1 && i8 > 0xFFFF then none else
+    let (i8, sz) := if sz == 1 && i8 >>> 8 == i8 % 256 then (i8 >>> 8, 0) else (i8, sz)
+    let maxShift := (8 <<< sz) - 8
+    match sh with
+    | some (sv, sp) =>
+      if i8 > 0xFF || sv.toNat > maxShift then none else
+      if sv.toNat % 8 != 0 then none else some (i8, sz, sv.toNat, sp)
+    | none =>
+      if i8 != 0 then
+        let s := (ctz32 i8) / 8 * 8
+        let i8' := i8 >>> s
+        if i8' > 0xFF || s > maxShift then none else some (i8', sz, s, sopLSL)
+      else some (i8, sz, 0, sopLSL)
+  else some (imm8a, size1, 0, sopLSL)
+
+/-- stage 3: cmode / op per element size; (imm8, cmode, op) -/
+def moviStage3 (inverted : Nat) (b : Nat × Nat × Nat × Nat) : Option (Nat × Nat × Nat) :=
+  let (imm8, size, shift8, shiftOp) := b
+  let shift := shift8 / 8
+  if size == 0 then
+    if shiftOp != sopLSL then none else some (if inverted != 0 then (255 - imm8 % 256) else imm8, 14, 0)
+  else if size == 1 then
+    if shiftOp != sopLSL then none else some (imm8, 8 ||| (shift <<< 1), inverted)
+  else if size == 2 then
+    if shiftOp == sopLSL then some (imm8, shift <<< 1, inverted)
+    else if shiftOp == sopMSL then (if shift == 0 || shift > 2 then none else some (imm8, 12 ||| (shift - 1), inverted))
+    else none
+  else some (if inverted != 0 then (255 - imm8 % 256) else imm8, 14, 1)
+
+/-- `sh` = the optional second immediate (value, predicate).  NOTE: the original source tests `o0.as<Imm>().value() != 0` (the
 register operand read as an immediate - always 0) where `o2` is meant, so for 64-bit elements a second immediate is ignored;
 fixes/C02-16.patch repairs it (`srcMoviChecksShiftOperand`, detected by the translator). -/
 def emitSimdMoviMvni (d : SimdMoviMvniRow) (o0 : Reg) (imm : BitVec 64) (sh : Option (BitVec 64 × Nat)) : Result :=
   match sizeOpOf kVO_V_Any o0 with
   | none => invalidInstruction
   | some so =>
-    let size0 := soSize so
-    let imm64 := imm.toNat
-    -- stage 1: 64-bit elements
-    let st1 : Option (Nat × Nat × Nat) :=
-      if size0 == 3 then
-        if isByteMask imm64 then some (imm64, byteMaskToImm8 imm64, 3)
-        else if imm64 >>> 32 == imm64 % 2 ^ 32 then some (imm64 % 2 ^ 32, 0, 2) else none
-      else some (imm64, 0, size0)
-    let shRefused := srcMoviChecksShiftOperand == 1 && size0 == 3 &&
+    let shRefused := srcMoviChecksShiftOperand == 1 && soSize so == 3 &&
       (match sh with | some (sv, sp) => sv != 0 || sp != sopLSL | none => false)
-    match (if shRefused then none else st1) with
+    match (if shRefused then none else moviStage1 (soSize so) imm.toNat) with
     | none => invalidImmediate
-    | some (imm64, imm8a, size1) =>
-      -- stage 2: (imm8, size, shift, shiftOp)
-      let st2 : Option (Nat × Nat × Nat × Nat) :=
-        if size1 < 3 then
-          if imm64 > 0xFFFFFFFF then none else
-          let (i8, sz) := if size1 == 2 && imm64 >>> 16 == imm64 % 65536 then (imm64 >>> 16, 1) else (imm64, size1)
-          if sz == 1 && i8 > 0xFFFF then none else
-          let (i8, sz) := if sz == 1 && i8 >>> 8 == i8 % 256 then (i8 >>> 8, 0) else (i8, sz)
-          let maxShift := (8 <<< sz) - 8
-          match sh with
-          | some (sv, sp) =>
-            if i8 > 0xFF || sv.toNat > maxShift then none else
-            if sv.toNat % 8 != 0 then none else some (i8, sz, sv.toNat, sp)
-          | none =>
-            if i8 != 0 then
-              let s := (ctz32 i8) / 8 * 8
-              let i8' := i8 >>> s
-              if i8' > 0xFF || s > maxShift then none else some (i8', sz, s, sopLSL)
-            else some (i8, sz, 0, sopLSL)
-        else some (imm8a, size1, 0, sopLSL)
-      match st2 with
+    | some a =>
+      match moviStage2 sh a with
       | none => invalidImmediate
-      | some (imm8, size, shift8, shiftOp) =>
-        let shift := shift8 / 8
-        -- (imm8, cmode, op)
-        let st3 : Option (Nat × Nat × Nat) :=
-          if size == 0 then
-            if shiftOp != sopLSL then none else some (if d.inverted != 0 then (255 - imm8 % 256) else imm8, 14, 0)
-          else if size == 1 then
-            if shiftOp != sopLSL then none else some (imm8, 8 ||| (shift <<< 1), d.inverted)
-          else if size == 2 then
-            if shiftOp == sopLSL then some (imm8, shift <<< 1, d.inverted)
-            else if shiftOp == sopMSL then (if shift == 0 || shift > 2 then none else some (imm8, 12 ||| (shift - 1), d.inverted))
-            else none
-          else some (if d.inverted != 0 then (255 - imm8 % 256) else imm8, 14, 1)
-        match st3 with
+      | some b =>
+        match moviStage3 d.inverted b with
         | none => invalidImmediate
         | some (imm8, cmode, op) =>
           tailRd0 ((w32 d.opcode <<< 10) ||| addImm (soQ so) 30 ||| addImm op 29 ||| addImm ((imm8 >>> 5) &&& 7) 16 |||
